@@ -6,7 +6,7 @@ HEAD="$(git -C /repo rev-parse HEAD)"
 git -C "$WT" reset -q --hard; git -C "$WT" clean -fdq -e .demo; git -C "$WT" checkout -q --detach "$HEAD" || exit 3
 place_demo() {
   PKGS=""
-  for f in "$SRC"/demo/*_test.go; do
+  for f in $(find "$SRC/demo" -name "*_test.go" | sort); do
     [ -f "$f" ] || continue
     pk=$(grep -m1 '^package ' "$f" | awk '{print $2}')
     case "$pk" in
@@ -18,7 +18,7 @@ place_demo() {
     cp "$f" "$WT/$d/"; PKGS="$PKGS ./$d/"
   done
   PKGS=$(echo $PKGS | tr ' ' '\n' | sort -u | tr '\n' ' ')
-  NAMES=$(grep -h '^func Test' "$SRC"/demo/*_test.go | sed 's/func \(Test[A-Za-z0-9_]*\).*/\1/' | paste -sd'|')
+  NAMES=$(grep -h '^func Test' $(find "$SRC/demo" -name "*_test.go") | sed 's/func \(Test[A-Za-z0-9_]*\).*/\1/' | paste -sd'|')
 }
 rm_demo() { git -C "$WT" clean -fdq -e .demo; }
 # 1. without change: demo passes
